@@ -17,6 +17,7 @@ import (
 	"github.com/herohde/morlock/pkg/search"
 	"github.com/herohde/morlock/pkg/search/searchctl"
 	"github.com/seekerror/stdlib/pkg/lang"
+	"verif/harness/internal/gen"
 	"verif/harness/internal/out"
 	"verif/harness/internal/sdump"
 	"verif/harness/internal/ucih"
@@ -270,6 +271,37 @@ func determinism(args []string) {
 		w.Emit(out.M{"op": "det", "key": key, "how": "move-while-halted-search-unwinds", "complete": true,
 			"res":    out.M{"depth": 0, "score": sdump.ResultOf(0, eval.ZeroScore, nil, nil).Score, "pv": [][]int{}, "nodes": 0},
 			"state0": engineState(ref), "state1": engineState(e)})
+	}
+	// searches restricted to a line (search.Context.Ponder), the way a caller may use them: the same context
+	// handed to the search again, and a fresh one - the result depends on position, line and depth only
+	for i := 0; i < *n/2+2; i++ {
+		f := all[r.Intn(len(all))].Fen
+		pos, turn, np, fm, err := fen.Decode(f)
+		if err != nil {
+			continue
+		}
+		b := board.NewBoard(board.NewZobristTable(int64(i)), pos, turn, np, fm)
+		legal, _ := gen.LegalOf(b)
+		if len(legal) == 0 {
+			continue
+		}
+		m := legal[r.Intn(len(legal))]
+		depth := 1 + r.Intn(2)
+		root := search.AlphaBeta{Eval: search.Leaf{Eval: eval.Material{}}}
+		key := fmt.Sprintf("ponder|%v|%v|%d", f, moveText(m), depth)
+		shared := &search.Context{TT: search.NoTranspositionTable{}, Ponder: []board.Move{m}}
+		for _, how := range []string{"first", "again-with-the-same-context", "again-with-the-same-context", "fresh-context"} {
+			sctx := shared
+			if how == "fresh-context" {
+				sctx = &search.Context{TT: search.NoTranspositionTable{}, Ponder: []board.Move{m}}
+			}
+			fb := b.Fork()
+			rec0 := sdump.Rec(fb)
+			nodes, score, pv, serr := root.Search(ctx, sctx, fb, depth)
+			rr := sdump.ResultOf(nodes, score, pv, serr)
+			w.Emit(out.M{"op": "det", "key": key, "how": "ponder-line:" + how, "complete": serr == nil,
+				"res": out.M{"depth": depth, "score": rr.Score, "pv": rr.Pv, "nodes": rr.Nodes}, "state0": rec0, "state1": sdump.Rec(fb)})
+		}
 	}
 	w.Close()
 }
